@@ -1884,3 +1884,30 @@ class CountFlow(Flow):
         if w:
             st = frozenset(min(2, c + 1) for c in st)
         return st
+
+
+def expand_local_guards(F, guards, body, depth=3):
+    """For guards that are plain boolean locals with a single `let` definition
+    (`let check_types = a && b;`), add the conjuncts (polarity true) /
+    disjuncts (polarity false) of the definition."""
+    out = list(guards)
+    work = list(guards)
+    for _ in range(depth):
+        new = []
+        for g in work:
+            if g.kind != "cond":
+                continue
+            n = peel(g.node)
+            if n.get("k") == "Path" and n.get("res") == "local":
+                defs = [d for d in local_defs(body, n["lid"]) if d[0] == "let" and d[1] is not None]
+                assigns = [d for d in local_defs(body, n["lid"]) if d[0] == "assign"]
+                if len(defs) == 1 and not assigns:
+                    tmp = []
+                    split_cond(defs[0][1], g.pol, tmp)
+                    tmp = [t for t in tmp if not (t.kind == "cond" and t.node is peel(defs[0][1]))]
+                    new += tmp
+        out += new
+        work = new
+        if not new:
+            break
+    return out
